@@ -70,7 +70,7 @@ theorem split_older {ts : Ticket} {K D X R1 : TextSt} {b : TNode} (h : K ++ D = 
       have := hK b this
       rw [hb] at this; cases this
 
-theorem disj_cids {s : TextSt} (wf : WF s) {P Q : TextSt} (h : s = P ++ Q) {i : Id}
+theorem disj_cids {s : TextSt} (wf : WFg s) {P Q : TextSt} (h : s = P ++ Q) {i : Id}
     (h1 : i ∈ cids (abs P)) (h2 : i ∈ cids (abs Q)) : False := by
   have nd := nodup_cids_abs wf
   rw [h, abs_append, cids_append] at nd
@@ -124,7 +124,7 @@ theorem Around.cur_old {s : TextSt} {ts : Ticket} {a : Option Id} {A K D : TextS
   | some i => rw [h.ends.1]; exact h.anchorOld i rfl
 
 /-- **the range loop on blocks is `rmap` on cells** -/
-theorem range_abs {s : TextSt} (wf : WF s) {ts : Ticket} {F T : Option Id}
+theorem range_abs {s : TextSt} (wf : WFg s) {ts : Ticket} {F T : Option Id}
     {AF KF DF : TextSt} {curF : TNode} (hF : Around s ts F AF curF KF DF)
     {AT KT DT : TextSt} {bT : TNode} (hT : Around s ts T AT bT KT DT)
     {g : TNode → TNode} {f : Cell → Cell} (hg : ∀ n, absNode (g n) = (absNode n).map f)
